@@ -2,9 +2,9 @@
 from .common import *
 ID = "C03"
 FUNCTIONS = [TF + f for f in ("_update_helper", "update", "update_all", "reindex")] + [IX + f for f in ("search", "_search_helper", "build", "invalidate", "_reset")] + \
-    ["tinyflux.database._index_is_exact_for", "tinyflux.measurement.Measurement.remove", "lemma:count"]
-ASSUMED = ["tinyflux.database.TinyFlux._generate_updater"] + ["tinyflux.storages.Storage." + f for f in ("can_read", "can_write", "append", "_swap_temp_with_primary", "_init_temp_storage", "_cleanup_temp_storage", "_deserialize_storage_item", "_deserialize_measurement", "_serialize_point")]
+    ["tinyflux.database._index_is_exact_for", "tinyflux.measurement.Measurement.remove", "lemma:count"] + [TF + "_generate_updater", TF + "_generate_updater.<locals>.perform_update"] + ["tinyflux.point.validate_tags", "tinyflux.point.validate_fields"]
+ASSUMED = ["tinyflux.storages.Storage." + f for f in ("can_read", "can_write", "append", "_swap_temp_with_primary", "_init_temp_storage", "_cleanup_temp_storage", "_deserialize_storage_item", "_deserialize_measurement", "_serialize_point")]
 STANDIN = "standins/dbdiff.py"
 TRUSTED = TRUSTED_CORE + [STORAGE_ASSUMED, QUERY_ASSUMED,
-                          "INTERFACE contract of _generate_updater / perform_update (NOT proved against their bodies in this round): static arguments are validated up front (ValueError before any effect); the closure maps a point to its updated value or raises; the merge semantics themselves (key-by-key merge, unset last, static = callable) are covered only by the bounded stand-in"]
+                          "the Any universe of contracts/any_model.py (isinstance uninterpreted per class name, truthiness and callability of an Any value uninterpreted); a callable update argument is an uninterpreted function of the point whose result is an arbitrary Any value"]
 ASSUMPTIONS = [A_ALIAS, "KF-18: MemoryStorage applies updates in place (aliasing); the proof is relative to the non-aliasing Storage contract"]
